@@ -1,12 +1,858 @@
 package c04
 
 import (
+	"bytes"
+	"encoding/json"
+	"fmt"
+	"math/big"
+	"sort"
+	"strings"
+	"sync"
 	"testing"
 
+	"github.com/nspcc-dev/neo-go/pkg/core"
+	"github.com/nspcc-dev/neo-go/pkg/smartcontract/trigger"
+
+	"github.com/nspcc-dev/neo-go/pkg/core/native/nativehashes"
+	"github.com/nspcc-dev/neo-go/pkg/core/native/nativeids"
+	"github.com/nspcc-dev/neo-go/pkg/core/native/noderoles"
+	"github.com/nspcc-dev/neo-go/pkg/core/state"
+	"github.com/nspcc-dev/neo-go/pkg/core/transaction"
+	"github.com/nspcc-dev/neo-go/pkg/crypto/keys"
+	"github.com/nspcc-dev/neo-go/pkg/io"
+	"github.com/nspcc-dev/neo-go/pkg/neotest"
+	"github.com/nspcc-dev/neo-go/pkg/smartcontract/callflag"
+	"github.com/nspcc-dev/neo-go/pkg/util"
+	"github.com/nspcc-dev/neo-go/pkg/vm/emit"
+	"github.com/nspcc-dev/neo-go/pkg/vm/opcode"
 	"github.com/nspcc-dev/neo-go/pkg/vm/stackitem"
+	"github.com/nspcc-dev/neo-go/pkg/vm/vmstate"
 	"github.com/nspcc-dev/neo-go/verifharness/vlib/ev"
+	"github.com/nspcc-dev/neo-go/verifharness/vlib/rng"
+	"github.com/nspcc-dev/neo-go/verifharness/vlib/vchain"
 )
 
 type stackitemItem = stackitem.Item
 
-func twinSession(t *testing.T, run *ev.Run, si, n int) *violation { return nil }
+// effect is one side effect a transaction script makes.
+type effect struct {
+	kind      string
+	desc      string
+	committee bool
+	boolRes   bool // the call returns a boolean that must be true in the halting version
+	emit      func(bw *io.BinWriter)
+	// check returns "" when the effect is present on chain A after the halting
+	// version; before is what prepare returned before the block.
+	prepare func() any
+	check   func(before any) string
+}
+
+// Fault kinds.
+const (
+	fThrow = iota
+	fAbort
+	fAssert
+	fDivZero
+	fMissingContract
+	fContractThrow
+	fCallbackThrow
+	fOutOfGas
+	fBadFlags
+	nFaults
+)
+
+var faultNames = [...]string{"throw", "abort", "assert-false", "division-by-zero", "call-to-missing-contract", "contract-throws-after-writes", "payment-callback-throws", "out-of-gas-in-the-middle", "write-with-read-only-flags"}
+
+type twinGen struct {
+	w *world
+	r *rng.R
+	u int // signer user
+	// committeeOK: the committee that signs now is the one the block will check
+	// (it changes when the block starts a new epoch).
+	committeeOK bool
+	usedSlots   map[int]bool // contracts the effects chosen so far work with
+	doomed      int          // contract destroyed by one of the effects (-1: none)
+}
+
+func (g *twinGen) user() *vchain.User { return g.w.A.Users[g.u] }
+
+func appCall(bw *io.BinWriter, h util.Uint160, m string, args ...any) {
+	emit.AppCall(bw, h, m, callflag.All, args...)
+}
+
+func (w *world) gasBal(a util.Uint160) *big.Int {
+	return w.A.BC.GetUtilityTokenBalance(a, util.Uint160{})
+}
+func (w *world) neoBal(a util.Uint160) *big.Int {
+	b, _ := w.A.BC.GetGoverningTokenBalance(a)
+	return b
+}
+func (w *world) voteOf(a util.Uint160) *keys.PublicKey {
+	si := w.A.BC.GetStorageItem(nativeids.NeoToken, append([]byte{20}, a.BytesBE()...))
+	if si == nil {
+		return nil
+	}
+	nb, err := state.NEOBalanceFromBytes(si)
+	if err != nil {
+		return nil
+	}
+	return nb.VoteTo
+}
+func (w *world) registered(pub *keys.PublicKey) bool {
+	en, _ := w.A.BC.GetEnrollments()
+	for _, v := range en {
+		if v.Key.Equal(pub) {
+			return true
+		}
+	}
+	return false
+}
+func (w *world) isBlocked(a util.Uint160) bool {
+	return w.A.BC.GetStorageItem(w.A.BC.NativePolicyID(), append([]byte{15}, a.BytesBE()...)) != nil
+}
+
+func deltaCheck(what string, get func() *big.Int, amt int64) (func() any, func(any) string) {
+	return func() any { return get() }, func(b any) string {
+		want := new(big.Int).Add(b.(*big.Int), big.NewInt(amt))
+		if got := get(); got.Cmp(want) != 0 {
+			return fmt.Sprintf("%s is %s, expected %s (+%d)", what, got, want, amt)
+		}
+		return ""
+	}
+}
+
+// effects picks n distinct effects that are expected to succeed on the
+// current state of chain A.
+func (g *twinGen) effects(n int, used map[string]bool) []*effect {
+	var out []*effect
+	for tries := 0; len(out) < n && tries < 40; tries++ {
+		e := g.effect()
+		if e == nil || used[e.kind] || (e.committee && !g.committeeOK) {
+			continue
+		}
+		used[e.kind] = true
+		out = append(out, e)
+	}
+	return out
+}
+
+func (g *twinGen) liveSlot() int {
+	for range 10 {
+		s := g.r.Intn(nBase)
+		if s != g.doomed && g.w.A.BC.GetContractState(g.w.slotHash[s]) != nil && !g.w.isBlocked(g.w.slotHash[s]) {
+			g.usedSlots[s] = true
+			return s
+		}
+	}
+	return -1
+}
+
+func (g *twinGen) effect() *effect {
+	w, r, p := g.w, g.r, g.w.A
+	u := g.user()
+	switch r.Intn(15) {
+	case 0:
+		sink := w.sinks[r.Intn(2)] // never holds NEO: its GAS changes by transfers only
+		amt := int64(1 + r.Intn(1_0000_0000))
+		e := &effect{kind: "gas-transfer", desc: fmt.Sprintf("GAS.transfer(u%d -> sink, %d)", g.u, amt), boolRes: true,
+			emit: func(bw *io.BinWriter) { appCall(bw, p.GasH, "transfer", u.Hash(), sink, amt, nil) }}
+		e.prepare, e.check = deltaCheck("GAS of the recipient", func() *big.Int { return w.gasBal(sink) }, amt)
+		return e
+	case 1:
+		if w.neoBal(u.Hash()).Int64() < 1000 {
+			return nil
+		}
+		sink := w.sinks[2]
+		amt := int64(1 + r.Intn(100))
+		e := &effect{kind: "neo-transfer", desc: fmt.Sprintf("NEO.transfer(u%d -> sink, %d)", g.u, amt), boolRes: true,
+			emit: func(bw *io.BinWriter) { appCall(bw, p.NeoH, "transfer", u.Hash(), sink, amt, nil) }}
+		e.prepare, e.check = deltaCheck("NEO of the recipient", func() *big.Int { return w.neoBal(sink) }, amt)
+		return e
+	case 2:
+		if w.neoBal(u.Hash()).Sign() == 0 {
+			return nil
+		}
+		en, _ := p.BC.GetEnrollments()
+		cur := w.voteOf(u.Hash())
+		var cands []*keys.PublicKey
+		for _, v := range en {
+			if cur == nil || !v.Key.Equal(cur) {
+				cands = append(cands, v.Key)
+			}
+		}
+		if len(cands) == 0 {
+			return nil
+		}
+		if cur != nil && r.Intn(4) == 0 {
+			return &effect{kind: "vote", desc: fmt.Sprintf("NEO.vote(u%d, nil)", g.u), boolRes: true,
+				emit:    func(bw *io.BinWriter) { appCall(bw, p.NeoH, "vote", u.Hash(), nil) },
+				prepare: func() any { return nil },
+				check: func(any) string {
+					if v := w.voteOf(u.Hash()); v != nil {
+						return "the account still votes for " + v.StringCompressed()
+					}
+					return ""
+				}}
+		}
+		c := cands[r.Intn(len(cands))]
+		return &effect{kind: "vote", desc: fmt.Sprintf("NEO.vote(u%d, %s)", g.u, c.StringCompressed()[:10]), boolRes: true,
+			emit:    func(bw *io.BinWriter) { appCall(bw, p.NeoH, "vote", u.Hash(), c.Bytes()) },
+			prepare: func() any { return nil },
+			check: func(any) string {
+				if v := w.voteOf(u.Hash()); v == nil || !v.Equal(c) {
+					return fmt.Sprintf("the account votes for %v, expected %s", v, c.StringCompressed())
+				}
+				return ""
+			}}
+	case 3:
+		pub := u.Acc.PublicKey()
+		if w.registered(pub) {
+			return &effect{kind: "candidate", desc: fmt.Sprintf("NEO.unregisterCandidate(u%d)", g.u), boolRes: true,
+				emit:    func(bw *io.BinWriter) { appCall(bw, p.NeoH, "unregisterCandidate", pub.Bytes()) },
+				prepare: func() any { return nil },
+				check: func(any) string {
+					if w.registered(pub) {
+						return "the key is still a registered candidate"
+					}
+					return ""
+				}}
+		}
+		return &effect{kind: "candidate", desc: fmt.Sprintf("NEO.registerCandidate(u%d)", g.u), boolRes: true,
+			emit:    func(bw *io.BinWriter) { appCall(bw, p.NeoH, "registerCandidate", pub.Bytes()) },
+			prepare: func() any { return nil },
+			check: func(any) string {
+				if !w.registered(pub) {
+					return "the key is not a registered candidate"
+				}
+				return ""
+			}}
+	case 4, 5:
+		type setter struct {
+			h      util.Uint160
+			m      string
+			v      int64
+			getter func() int64
+		}
+		ss := []setter{
+			{p.PolH, "setFeePerByte", int64(300 + r.Intn(3000)), func() int64 { return p.BC.FeePerByte() }},
+			{p.PolH, "setStoragePrice", int64(40000 + r.Intn(100000)), func() int64 { return p.BC.GetStoragePrice() / 10000 }}, // the getter answers in picoGAS
+			{p.NeoH, "setRegisterPrice", int64((1 + r.Intn(30)) * 100_0000), nil},
+			{p.NeoH, "setGasPerBlock", int64((1 + r.Intn(9)) * 1_0000_0000), nil},
+		}
+		s := ss[r.Intn(len(ss))]
+		e := &effect{kind: "policy-" + s.m, desc: fmt.Sprintf("%s(%d)", s.m, s.v), committee: true,
+			emit:    func(bw *io.BinWriter) { appCall(bw, s.h, s.m, s.v) },
+			prepare: func() any { return nil },
+			check: func(any) string {
+				if s.getter != nil && s.getter() != s.v {
+					return fmt.Sprintf("%s: the getter returns %d, expected %d", s.m, s.getter(), s.v)
+				}
+				return ""
+			}}
+		if s.getter == nil {
+			// checked through storage: NEO register price (prefix 13) / gas per block records (prefix 29)
+			if s.m == "setRegisterPrice" {
+				e.check = func(any) string {
+					si := p.BC.GetStorageItem(nativeids.NeoToken, []byte{13})
+					if si == nil || new(big.Int).SetBytes(reverse(si)).Int64() != s.v {
+						return fmt.Sprintf("stored register price is %x, expected %d", []byte(si), s.v)
+					}
+					return ""
+				}
+			}
+		}
+		return e
+	case 6:
+		typ := []int64{0x20, 0x21, 0x22}[r.Intn(3)]
+		v := int64(r.Intn(50_0000))
+		return &effect{kind: "policy-setAttributeFee", desc: fmt.Sprintf("setAttributeFee(%#x,%d)", typ, v), committee: true,
+			emit:    func(bw *io.BinWriter) { appCall(bw, p.PolH, "setAttributeFee", typ, v) },
+			prepare: func() any { return nil },
+			check: func(any) string {
+				si := p.BC.GetStorageItem(p.BC.NativePolicyID(), []byte{20, byte(typ)})
+				if si == nil || new(big.Int).SetBytes(reverse(si)).Int64() != v {
+					return fmt.Sprintf("stored attribute fee is %x, expected %d", []byte(si), v)
+				}
+				return ""
+			}}
+	case 7:
+		tg := w.dummies[r.Intn(len(w.dummies))]
+		name := "dummy"
+		if r.Intn(3) == 0 {
+			k := 8 + r.Intn(2) // users 8 and 9: voted candidates that never sign here
+			tg, name = p.Users[k].Hash(), fmt.Sprintf("candidate u%d", k)
+		}
+		if w.isBlocked(tg) {
+			return &effect{kind: "unblock-account", desc: "unblockAccount(" + name + ")", committee: true, boolRes: true,
+				emit:    func(bw *io.BinWriter) { appCall(bw, p.PolH, "unblockAccount", tg) },
+				prepare: func() any { return nil },
+				check: func(any) string {
+					if w.isBlocked(tg) {
+						return "the account is still blocked"
+					}
+					return ""
+				}}
+		}
+		return &effect{kind: "block-account", desc: "blockAccount(" + name + ")", committee: true, boolRes: true,
+			emit:    func(bw *io.BinWriter) { appCall(bw, p.PolH, "blockAccount", tg) },
+			prepare: func() any { return nil },
+			check: func(any) string {
+				if !w.isBlocked(tg) {
+					return "the account is not blocked"
+				}
+				return ""
+			}}
+	case 8:
+		role := []int64{4, 8, 16, 32}[r.Intn(4)]
+		n := 1 + r.Intn(3)
+		var ks []any
+		var want []string
+		for _, k := range r.Perm(6)[:n] {
+			ks = append(ks, w.roleKeys[k])
+			want = append(want, fmt.Sprintf("%x", w.roleKeys[k]))
+		}
+		sort.Strings(want)
+		return &effect{kind: "designate", desc: fmt.Sprintf("designateAsRole(%d, %d keys)", role, n), committee: true,
+			emit:    func(bw *io.BinWriter) { appCall(bw, p.RoleH, "designateAsRole", role, ks) },
+			prepare: func() any { return nil },
+			check: func(any) string {
+				got, _, err := p.BC.GetDesignatedByRole(noderoles.Role(role))
+				var gs []string
+				for _, k := range got {
+					gs = append(gs, fmt.Sprintf("%x", k.Bytes()))
+				}
+				sort.Strings(gs)
+				if err != nil || strings.Join(gs, ",") != strings.Join(want, ",") {
+					return fmt.Sprintf("designated nodes are %v (%v), expected %v", gs, err, want)
+				}
+				return ""
+			}}
+	case 9:
+		w.nonce++
+		name := fmt.Sprintf("tw%d", w.nonce)
+		c := vchain.StoreContract(w.t, u.Hash(), name, 1)
+		mb, _ := json.Marshal(c.Manifest)
+		nb, _ := c.NEF.Bytes()
+		return &effect{kind: "deploy", desc: "ContractManagement.deploy(" + name + ")",
+			emit: func(bw *io.BinWriter) {
+				appCall(bw, p.MgmtH, "deploy", nb, mb, nil)
+				emit.Opcodes(bw, opcode.DROP)
+			},
+			prepare: func() any { return nil },
+			check: func(any) string {
+				if p.BC.GetContractState(c.Hash) == nil {
+					return "the deployed contract does not exist"
+				}
+				return ""
+			}}
+	case 10:
+		s := g.liveSlot()
+		if s < 0 {
+			return nil
+		}
+		k, v, n := planKeys[r.Intn(len(planKeys))], fmt.Sprint(1000+r.Intn(1000)), 5000+r.Intn(1000)
+		plan := []step{{Op: opPut, K: k, V: v}, {Op: opNotify, N: n}, {Op: opPut, K: "w" + k, V: v}, {Op: opDel, K: "gone"}}
+		return &effect{kind: "contract-writes", desc: fmt.Sprintf("P%d.run[%s]", s, planString(plan)),
+			emit: func(bw *io.BinWriter) {
+				appCall(bw, w.slotHash[s], "run", w.encode(s, plan))
+				emit.Opcodes(bw, opcode.DROP)
+			},
+			prepare: func() any { return nil },
+			check: func(any) string {
+				_, _, kv := w.storageOfSlot(p.BC, s)
+				for _, x := range []string{k + "=" + v, "w" + k + "=" + v} {
+					if !contains(kv, x) {
+						return fmt.Sprintf("storage of P%d lacks %s: %v", s, x, kv)
+					}
+				}
+				return ""
+			}}
+	case 11:
+		s := g.liveSlot()
+		if s < 0 {
+			return nil
+		}
+		_, ver, _ := w.storageOfSlot(p.BC, s)
+		plan := []step{{Op: opPut, K: "upd", V: fmt.Sprint(r.Intn(100))}, {Op: opUpdate, X: 3 - ver, Data: true, Sub: []step{{Op: opPut, K: "cb", V: fmt.Sprint(r.Intn(100))}}}}
+		return &effect{kind: "update", desc: fmt.Sprintf("P%d.run[%s]", s, planString(plan)),
+			emit: func(bw *io.BinWriter) {
+				appCall(bw, w.slotHash[s], "run", w.encode(s, plan))
+				emit.Opcodes(bw, opcode.DROP)
+			},
+			prepare: func() any { return p.BC.GetContractState(w.slotHash[s]).UpdateCounter },
+			check: func(b any) string {
+				cs := p.BC.GetContractState(w.slotHash[s])
+				if cs == nil || cs.UpdateCounter != b.(uint16)+1 {
+					return "the update counter did not advance"
+				}
+				if _, v, _ := w.storageOfSlot(p.BC, s); v != 3-ver {
+					return fmt.Sprintf("the contract is at version %d, expected %d", v, 3-ver)
+				}
+				return ""
+			}}
+	case 12:
+		if r.Intn(2) != 0 {
+			return nil
+		}
+		if g.doomed >= 0 {
+			return nil
+		}
+		s := -1
+		for i := 0; i < nBase; i++ {
+			if !g.usedSlots[i] && p.BC.GetContractState(w.slotHash[i]) != nil && !w.isBlocked(w.slotHash[i]) {
+				s = i
+			}
+		}
+		if s < 0 {
+			return nil
+		}
+		alive := 0
+		for i := 0; i < nBase; i++ {
+			if p.BC.GetContractState(w.slotHash[i]) != nil {
+				alive++
+			}
+		}
+		if alive < 2 {
+			return nil
+		}
+		g.doomed = s
+		plan := []step{{Op: opPut, K: "last", V: "1"}, {Op: opDestroy}}
+		return &effect{kind: "destroy", desc: fmt.Sprintf("P%d.run[%s]", s, planString(plan)),
+			emit: func(bw *io.BinWriter) {
+				appCall(bw, w.slotHash[s], "run", w.encode(s, plan))
+				emit.Opcodes(bw, opcode.DROP)
+			},
+			prepare: func() any { return nil },
+			check: func(any) string {
+				if p.BC.GetContractState(w.slotHash[s]) != nil {
+					return "the destroyed contract still exists"
+				}
+				return ""
+			}}
+	case 13:
+		amt := int64((1 + r.Intn(5)) * 1_0000_0000)
+		till := int64(p.BC.BlockHeight())
+		if x := int64(p.BC.GetNotaryDepositExpiration(u.Hash())); x > till {
+			till = x
+		}
+		till += int64(6 + r.Intn(8))
+		e := &effect{kind: "notary-deposit", desc: fmt.Sprintf("GAS.transfer(u%d -> Notary, %d, till %d)", g.u, amt, till), boolRes: true,
+			emit: func(bw *io.BinWriter) { appCall(bw, p.GasH, "transfer", u.Hash(), p.NotaryH, amt, []any{nil, till}) }}
+		e.prepare, e.check = deltaCheck("Notary deposit", func() *big.Int { return p.BC.GetUtilityTokenBalance(nativehashes.Notary, u.Hash()) }, amt)
+		return e
+	default:
+		s := g.liveSlot()
+		if s < 0 {
+			return nil
+		}
+		amt := int64(1 + r.Intn(1000))
+		k, v := "paidGAS", fmt.Sprint(r.Intn(1000))
+		tok, tokName := p.GasH, "GAS"
+		bal := func() *big.Int { return w.gasBal(w.slotHash[s]) }
+		if r.Intn(3) == 0 && w.neoBal(u.Hash()).Int64() > 1000 {
+			tok, tokName, amt, k = p.NeoH, "NEO", int64(1+r.Intn(5)), "paidNEO"
+			bal = func() *big.Int { return w.neoBal(w.slotHash[s]) }
+		}
+		plan := []step{{Op: opPut, K: k, V: v}, {Op: opNotify, N: 7000 + r.Intn(100)}}
+		e := &effect{kind: "pay-contract-" + tokName, desc: fmt.Sprintf("%s.transfer(u%d -> P%d, %d, cb=[%s])", tokName, g.u, s, amt, planString(plan)), boolRes: true,
+			emit: func(bw *io.BinWriter) { appCall(bw, tok, "transfer", u.Hash(), w.slotHash[s], amt, w.encode(s, plan)) }}
+		pre, chk := deltaCheck(tokName+" of the contract", bal, amt)
+		e.prepare = pre
+		e.check = func(b any) string {
+			if tokName == "GAS" {
+				// the contract may also receive a GAS claim: only NEO deltas are exact
+				if bal().Cmp(new(big.Int).Add(b.(*big.Int), big.NewInt(amt))) < 0 {
+					return "the contract did not receive the GAS"
+				}
+			} else if d := chk(b); d != "" {
+				return d
+			}
+			if _, _, kv := w.storageOfSlot(p.BC, s); !contains(kv, k+"="+v) {
+				return fmt.Sprintf("the payment callback's write %s=%s is missing: %v", k, v, kv)
+			}
+			return ""
+		}
+		return e
+	}
+}
+
+func reverse(b []byte) []byte {
+	r := bytes.Clone(b)
+	for i, j := 0, len(r)-1; i < j; i, j = i+1, j-1 {
+		r[i], r[j] = r[j], r[i]
+	}
+	return r
+}
+
+func contains(l []string, x string) bool {
+	for _, y := range l {
+		if x == y {
+			return true
+		}
+	}
+	return false
+}
+
+// emitFault writes the code that stops the execution.
+func (g *twinGen) emitFault(bw *io.BinWriter, kind int) string {
+	w, r := g.w, g.r
+	switch kind {
+	case fThrow:
+		emit.Opcodes(bw, opcode.PUSH1, opcode.THROW)
+	case fAbort:
+		emit.Opcodes(bw, opcode.ABORT)
+	case fAssert:
+		emit.Opcodes(bw, opcode.PUSH0, opcode.ASSERT)
+	case fDivZero:
+		emit.Opcodes(bw, opcode.PUSH1, opcode.PUSH0, opcode.DIV)
+	case fMissingContract:
+		appCall(bw, util.Uint160{0xaa, 0xbb}, "run", []any{})
+	case fContractThrow, fBadFlags:
+		s := g.liveSlot()
+		if s < 0 {
+			emit.Opcodes(bw, opcode.PUSH1, opcode.THROW)
+			return "throw"
+		}
+		plan := []step{{Op: opPut, K: "f1", V: "x"}, {Op: opNotify, N: 9000 + r.Intn(100)}, {Op: opCall, C: s, F: fAll, Sub: []step{{Op: opPut, K: "f2", V: "y"}}}, {Op: opThrow}}
+		if kind == fBadFlags {
+			plan = []step{{Op: opNotify, N: 9100}, {Op: opCall, C: s, F: fReadStates | fAllowCall, Sub: []step{{Op: opPut, K: "f3", V: "z"}}}}
+		}
+		appCall(bw, w.slotHash[s], "run", w.encode(s, plan))
+		return fmt.Sprintf("P%d.run[%s]", s, planString(plan))
+	case fCallbackThrow:
+		s := g.liveSlot()
+		if s < 0 {
+			emit.Opcodes(bw, opcode.PUSH1, opcode.THROW)
+			return "throw"
+		}
+		plan := []step{{Op: opPut, K: "cbf", V: "x"}, {Op: opNotify, N: 9200 + r.Intn(100)}, {Op: opThrow}}
+		tok := w.A.GasH
+		if r.Intn(3) == 0 && w.neoBal(g.user().Hash()).Sign() > 0 {
+			tok = w.A.NeoH
+		}
+		appCall(bw, tok, "transfer", g.user().Hash(), w.slotHash[s], int64(1+r.Intn(3)), w.encode(s, plan))
+		return fmt.Sprintf("transfer(u%d -> P%d, cb=[%s])", g.u, s, planString(plan))
+	}
+	return faultNames[kind]
+}
+
+// readers imitates RPC clients: it reads, through the exported getters and
+// through test invocations, what the native caches answer, until stop is closed.
+func (w *world) readers(run *ev.Run, stop chan struct{}, wg *sync.WaitGroup) {
+	for _, bc := range []*core.Blockchain{w.A.BC, w.B} {
+		wg.Add(1)
+		go func() {
+			defer wg.Done()
+			script := w.probeScript()
+			for i := 0; ; i++ {
+				select {
+				case <-stop:
+					return
+				default:
+				}
+				h := bc.BlockHeight()
+				for _, u := range w.A.Users[:4] {
+					_, _ = bc.CalculateClaimable(u.Hash(), h+1)
+					_, _ = bc.GetGoverningTokenBalance(u.Hash())
+					_ = bc.GetUtilityTokenBalance(u.Hash(), util.Uint160{})
+					_ = bc.GetNotaryDepositExpiration(u.Hash())
+				}
+				_, _ = bc.GetEnrollments()
+				_, _ = bc.GetCommittee()
+				_ = bc.ComputeNextBlockValidators()
+				_, _ = bc.GetNextBlockValidators()
+				_, _, _ = bc.FeePerByte(), bc.GetStoragePrice(), bc.GetBaseExecFee()
+				for s := 0; s < nSlots; s++ {
+					_ = bc.GetContractState(w.slotHash[s])
+				}
+				for _, r := range []noderoles.Role{noderoles.StateValidator, noderoles.Oracle, noderoles.NeoFSAlphabet, noderoles.P2PNotary} {
+					_, _, _ = bc.GetDesignatedByRole(r)
+				}
+				if i%4 == 0 {
+					tx := transaction.New(script, 0)
+					tx.Signers = []transaction.Signer{{Account: w.A.Users[4].Hash(), Scopes: transaction.Global}}
+					if ic, err := bc.GetTestVM(trigger.Application, tx, nil); err == nil {
+						ic.VM.LoadWithFlags(script, callflag.ReadOnly)
+						_ = ic.VM.Run()
+						ic.Finalize()
+						run.Obs("race_concurrent_test_invocations", 1)
+					}
+				}
+				run.Obs("race_concurrent_read_rounds", 1)
+			}
+		}()
+	}
+}
+
+// twinSession runs n twin-block cases on one world. With concurrent set,
+// reader goroutines query both nodes all along (for the race detector).
+func twinSession(t *testing.T, run *ev.Run, si, n int, concurrent bool) *violation {
+	w, err := newWorld(t, 1000+si)
+	defer w.close()
+	if err != nil {
+		return setupFailure(run, "twins", si, err)
+	}
+	w.A.Cfg.Observe = false
+	w.opts.MaxContractID = 22
+	r := rng.New(uint64(si)*17 + 9000)
+	p := w.A
+	var history []string
+	if concurrent {
+		stop := make(chan struct{})
+		var wg sync.WaitGroup
+		w.readers(run, stop, &wg)
+		defer func() { close(stop); wg.Wait() }()
+		// a candidate without votes registers, then a faulting transaction
+		// unregisters it (its GAS-per-vote record and cache entry are dropped)
+		u := p.Users[0]
+		if err := w.addPair([]*transaction.Transaction{p.Call("race-register", []neotest.Signer{u.S}, p.NeoH, "registerCandidate", u.Acc.PublicKey().Bytes())}, nil, nil, nil); err != nil {
+			return &violation{"later-block-rejected", err.Error(), nil}
+		}
+		bw := io.NewBufBinWriter()
+		appCall(bw.BinWriter, p.NeoH, "unregisterCandidate", u.Acc.PublicKey().Bytes())
+		emit.Opcodes(bw.BinWriter, opcode.ASSERT, opcode.PUSH1, opcode.THROW)
+		ta, tb, err := w.txPair("race-unregister-fault", []neotest.Signer{u.S}, bw.Bytes(), abortScript, 5_0000_0000)
+		if err == nil {
+			if err := w.addPair(nil, ta, tb, nil); err != nil {
+				return &violation{"block-rejected", err.Error(), nil}
+			}
+			if name, d := diffObs(w.obsA(), w.obsB(), 0); name != "" {
+				return &violation{"fault-vs-abort-twin:" + name, d, nil}
+			}
+		}
+	}
+	for k := 0; k < n; k++ {
+		h0 := p.BC.BlockHeight()
+		g := &twinGen{w: w, r: r, u: []int{0, 1, 5, 6}[r.Intn(4)], committeeOK: (h0+1)%vchain.Epoch != 0 && (h0+3)%vchain.Epoch != 0, usedSlots: map[int]bool{}, doomed: -1}
+		if w.isBlocked(g.user().Hash()) {
+			continue
+		}
+		ne := 1 + r.Intn(4)
+		effs := g.effects(ne, map[string]bool{})
+		if len(effs) == 0 {
+			continue
+		}
+		kind := r.Intn(nFaults)
+		at := r.Intn(len(effs) + 1) // effects executed before the fault
+		if k%3 == 0 {
+			at = len(effs) // late fault: everything was done
+		}
+		needCommittee := false
+		for _, e := range effs {
+			needCommittee = needCommittee || e.committee
+		}
+		signers := []neotest.Signer{g.user().S}
+		if needCommittee {
+			cs := p.CommitteeSigner()
+			if cs == nil {
+				run.Inconclusive("twins/s%d: no committee signer", si)
+				return nil
+			}
+			signers = append(signers, cs)
+		}
+		// the faulting script
+		bw := io.NewBufBinWriter()
+		faultDesc := ""
+		var names []string
+		for i, e := range effs {
+			if i == at && kind != fOutOfGas {
+				faultDesc = g.emitFault(bw.BinWriter, kind)
+			}
+			e.emit(bw.BinWriter)
+			if e.boolRes {
+				emit.Opcodes(bw.BinWriter, opcode.DROP)
+			}
+			if i < at || kind == fOutOfGas {
+				names = append(names, e.kind)
+			}
+		}
+		if kind == fOutOfGas {
+			at = len(effs)
+			s := g.liveSlot()
+			if s >= 0 {
+				var plan []step
+				for i := 0; i < 25; i++ {
+					plan = append(plan, step{Op: opPut, K: fmt.Sprintf("g%d", i), V: "vvvvvvvvvvvvvvvvvvvvvvvv"})
+				}
+				appCall(bw.BinWriter, w.slotHash[s], "run", w.encode(s, plan))
+			}
+			faultDesc = faultNames[kind]
+		} else if at == len(effs) {
+			faultDesc = g.emitFault(bw.BinWriter, kind)
+		}
+		sFault := bw.Bytes()
+		sysFee := int64(60_0000_0000)
+		if kind == fOutOfGas {
+			// measure the whole script, then grant only a part of it
+			tx := transaction.New(sFault, 0)
+			for _, sg := range signers {
+				tx.Signers = append(tx.Signers, transaction.Signer{Account: sg.ScriptHash(), Scopes: transaction.Global})
+			}
+			v, err := p.E.TestInvoke(tx)
+			if err != nil || v.GasConsumed() < 1000 {
+				continue
+			}
+			sysFee = v.GasConsumed() * int64(20+r.Intn(78)) / 100
+		}
+		ta, tb, err := w.txPair("twin-fault", signers, sFault, abortScript, sysFee)
+		if err != nil {
+			run.Inconclusive("twins/s%d: %v", si, err)
+			return nil
+		}
+		// surrounding common transactions
+		var pre, post []*transaction.Transaction
+		for range r.Intn(3) {
+			pre = append(pre, w.commonTx(r, g.u))
+		}
+		for range r.Intn(3) {
+			post = append(post, w.commonTx(r, g.u))
+		}
+		if r.Intn(2) == 0 {
+			post = append(post, w.probeTx(4))
+		}
+		if r.Intn(3) == 0 {
+			// the same sender acts again in the same block
+			b2 := io.NewBufBinWriter()
+			appCall(b2.BinWriter, p.GasH, "transfer", g.user().Hash(), w.sinks[0], int64(1+r.Intn(1000)), nil)
+			emit.Opcodes(b2.BinWriter, opcode.ASSERT)
+			post = append(post, p.Tx("same-sender-again", []neotest.Signer{g.user().S}, b2.Bytes(), 1_0000_0000))
+		}
+		var descs []string
+		for _, e := range effs {
+			descs = append(descs, e.desc)
+		}
+		desc := fmt.Sprintf("#%d u%d effects=%v fault=%s after %d effect(s) [%s] position=%d/%d", k, g.u, descs, faultNames[kind], at, faultDesc, len(pre), len(pre)+1+len(post))
+		history = append(history, desc)
+		wit := func(extra map[string]any) map[string]any {
+			h := history
+			if len(h) > 10 {
+				h = h[len(h)-10:]
+			}
+			m := map[string]any{"session": si, "protocol": w.proto, "case": k, "description": desc, "height": p.BC.BlockHeight(), "script_hex": fmt.Sprintf("%x", sFault), "system_fee": sysFee, "session_so_far": h}
+			for k, v := range extra {
+				m[k] = v
+			}
+			return m
+		}
+		if err := w.addPair(pre, ta, tb, post); err != nil {
+			return &violation{"block-rejected", err.Error(), wit(nil)}
+		}
+		aerA := aerOf(p.BC, ta.Hash())
+		if aerA == nil {
+			run.Inconclusive("twins/s%d: execution result missing", si)
+			return nil
+		}
+		sort.Strings(names)
+		run.Case(fmt.Sprintf("%v|%s|%d|%d/%d", names, faultNames[kind], at, len(pre), len(post)), at > 0)
+		run.Obs("twin_blocks", 1)
+		run.Obs("twin_effects_before_fault", int64(at))
+		run.Obs("twin_fault_"+faultNames[kind], 1)
+		for _, nm := range names {
+			run.Obs("twin_effect_before_fault_"+nm, 1)
+		}
+		if k == 0 && si < 3 {
+			run.Sample(map[string]any{"twin_session": si, "case": desc, "vm_state": aerA.VMState.String(), "fault": aerA.FaultException})
+		}
+		if aerA.VMState == vmstate.Halt {
+			// the script did not fault (e.g. out of gas margin too large): nothing to compare
+			run.Obs("twin_fault_script_halted", 1)
+			return &violation{"harness:fault-script-halted", "the faulting script halted: " + desc, wit(nil)}
+		}
+		if len(aerA.Events) != 0 {
+			run.Obs("faulted_execution_results_listing_events", 1)
+		}
+		run.Obs("observations_compared", 1)
+		if name, d := diffObs(w.obsA(), w.obsB(), len(pre)); name != "" {
+			return &violation{"fault-vs-abort-twin:" + name, d, wit(map[string]any{"fault_exception": aerA.FaultException})}
+		}
+		// next block 1: common probes
+		if err := w.addPair([]*transaction.Transaction{w.probeTx(4), w.commonTx(r, g.u)}, nil, nil, nil); err != nil {
+			return &violation{"later-block-rejected", err.Error(), wit(nil)}
+		}
+		run.Obs("observations_compared", 1)
+		if name, d := diffObs(w.obsA(), w.obsB(), -1); name != "" {
+			return &violation{"fault-vs-abort-twin:next-block:" + name, d, wit(map[string]any{"fault_exception": aerA.FaultException})}
+		}
+		// next block 2: the halting version of the same effects, on both chains
+		bh := io.NewBufBinWriter()
+		for _, e := range effs {
+			e.emit(bh.BinWriter)
+			if e.boolRes {
+				emit.Opcodes(bh.BinWriter, opcode.ASSERT)
+			}
+		}
+		var before []any
+		for _, e := range effs {
+			before = append(before, e.prepare())
+		}
+		if needCommittee {
+			cs := p.CommitteeSigner()
+			if cs == nil {
+				run.Inconclusive("twins/s%d: no committee signer", si)
+				return nil
+			}
+			signers = []neotest.Signer{g.user().S, cs}
+		}
+		th, _, err := w.txPair("twin-halt", signers, bh.Bytes(), bh.Bytes(), 60_0000_0000)
+		if err != nil {
+			run.Inconclusive("twins/s%d: %v", si, err)
+			return nil
+		}
+		if err := w.addPair([]*transaction.Transaction{th}, nil, nil, nil); err != nil {
+			return &violation{"later-block-rejected", err.Error(), wit(nil)}
+		}
+		aerH := aerOf(p.BC, th.Hash())
+		if aerH == nil {
+			run.Inconclusive("twins/s%d: execution result missing", si)
+			return nil
+		}
+		run.Obs("observations_compared", 1)
+		if name, d := diffObs(w.obsA(), w.obsB(), -1); name != "" {
+			return &violation{"fault-vs-abort-twin:second-next-block:" + name, d, wit(map[string]any{"fault_exception": aerA.FaultException})}
+		}
+		if aerH.VMState != vmstate.Halt {
+			run.Obs("twin_halting_version_faulted", 1)
+			run.Note(fmt.Sprintf("halting_version_faulted_s%d_%d", si, k), desc+": "+aerH.FaultException)
+			continue
+		}
+		run.Obs("twin_halting_versions", 1)
+		for i, e := range effs {
+			run.Obs("halting_effects_checked_present", 1)
+			if d := e.check(before[i]); d != "" {
+				return &violation{"halting-effect-missing:" + e.kind, e.desc + ": " + d, wit(nil)}
+			}
+		}
+	}
+	return nil
+}
+
+// commonTx returns a halting transaction both chains get, signed by a user
+// other than avoid.
+func (w *world) commonTx(r *rng.R, avoid int) *transaction.Transaction {
+	p := w.A
+	for {
+		switch r.Intn(4) {
+		case 0:
+			return w.smallTransfer(3, 4, int64(1+r.Intn(100)))
+		case 1:
+			return w.smallTransfer(4, 3, int64(1+r.Intn(100)))
+		case 2:
+			u := 2 + r.Intn(2)
+			if u == avoid || w.isBlocked(p.Users[u].Hash()) {
+				continue
+			}
+			en, _ := p.BC.GetEnrollments()
+			if len(en) == 0 {
+				continue
+			}
+			bw := io.NewBufBinWriter()
+			appCall(bw.BinWriter, p.NeoH, "vote", p.Users[u].Hash(), en[r.Intn(len(en))].Key.Bytes())
+			return p.Tx("side-vote", []neotest.Signer{p.Users[u].S}, bw.Bytes(), 2_0000_0000)
+		default:
+			u := 2 + r.Intn(2)
+			bw := io.NewBufBinWriter()
+			appCall(bw.BinWriter, p.NeoH, "transfer", p.Users[u].Hash(), p.Users[7].Hash(), int64(1+r.Intn(50)), nil)
+			return p.Tx("side-neo-transfer", []neotest.Signer{p.Users[u].S}, bw.Bytes(), 2_0000_0000)
+		}
+	}
+}
